@@ -38,7 +38,12 @@ func propC06(w *World, r *Report) {
 	RunMemoKey(w, r, gt)
 	RunReuseKey(w, r, gt)
 	RunControl(r, "reusekey", "ctlContext).reuse", RunReuseKey)
-	RunMapMiss(w, r, gt)
+	var applyFns []*ssa.Function
+	for f := range w.libReach(mustFuncs(w, r, "(*opentype/gtab.Context).Apply")) {
+		applyFns = append(applyFns, f)
+	}
+	sort.Slice(applyFns, func(i, j int) bool { return fnName(applyFns[i]) < fnName(applyFns[j]) })
+	RunMapMiss(w, r, applyFns)
 	r.Floor("mapmiss", 10)
 	RunIterFresh(w, r, gt)
 	RunIterFreshControl(r)
